@@ -4,6 +4,12 @@
 //! written as one ND-JSON line each, framed by a `root` line (base position, moves played to reach the
 //! root, limits) and an `end` line (outcome, best move, lines reported per iteration).  Searches that are
 //! not recorded only warm the tables.
+//!
+//! `nodes <jobs.ndjson> <events-out> <table-out> [max-slots]` additionally records (hook H9) every operation of
+//! EVERY search of a session on the transposition table - probe with what it returned, insert with what was handed
+//! in, new search - with the real slot index, plus the harness's own `new` / `reset` of the persistent state.  Slots
+//! are independent of one another, so only the operations on a bounded set of slots are written: first the slots on
+//! which two or more different keys met (collisions), then the busiest ones.
 use crate::chess::game::Game;
 use crate::chess::moves::Move;
 use crate::engine::options::EngineOptions;
@@ -33,9 +39,80 @@ impl Reporter for Collect {
     fn best_move(&self, _: &Game, _: Move) {}
 }
 
+enum SessEv {
+    New(usize),
+    Reset,
+    Ev(verif::TableEvent),
+}
+
+/// key ids are global to the file: (key, number of slots) -> id; `pool[id - 1]` = (slot, number of slots)
+struct Pool {
+    ids: std::collections::HashMap<(u64, usize), usize>,
+    pool: Vec<(usize, usize)>,
+    lines: Vec<String>,
+}
+
+fn write_session(p: &mut Pool, sess: &[SessEv], max_slots: usize, totals: &mut [u64; 5]) {
+    use std::collections::{HashMap, HashSet};
+    let mut keys_of: HashMap<usize, HashSet<u64>> = HashMap::new();
+    let mut count: HashMap<usize, usize> = HashMap::new();
+    for e in sess {
+        if let SessEv::Ev(t) = e {
+            if t.op != 2 {
+                keys_of.entry(t.slot).or_default().insert(t.key);
+                *count.entry(t.slot).or_default() += 1;
+            }
+        }
+    }
+    let mut slots: Vec<usize> = count.keys().copied().collect();
+    // collisions first, then by activity (ties by index: deterministic)
+    slots.sort_by_key(|s| (std::cmp::Reverse(keys_of[s].len().min(4)), std::cmp::Reverse(count[s]), *s));
+    totals[2] += slots.iter().filter(|s| keys_of[*s].len() > 1).count() as u64;
+    slots.truncate(max_slots);
+    let tracked: HashSet<usize> = slots.into_iter().collect();
+    for e in sess {
+        match e {
+            SessEv::New(n) => p.lines.push(json!({"op": "new", "slots": n}).to_string()),
+            SessEv::Reset => p.lines.push(json!({"op": "reset"}).to_string()),
+            SessEv::Ev(t) => {
+                totals[0] += 1;
+                if t.op == 1 {
+                    totals[4] += 1;
+                }
+                if t.op == 2 {
+                    p.lines.push(json!({"op": "newsearch", "gen": t.generation}).to_string());
+                    continue;
+                }
+                if !tracked.contains(&t.slot) {
+                    continue;
+                }
+                totals[1] += 1;
+                let n = p.ids.len() + 1;
+                let id = *p.ids.entry((t.key, t.slots)).or_insert(n);
+                if id == n {
+                    p.pool.push((t.slot, t.slots));
+                }
+                let mv = t.mv.map_or(-1, proj::pack_move);
+                let d = json!([t.v[0], t.v[1], t.v[2], t.v[3], mv]);
+                if t.op == 0 {
+                    p.lines.push(json!({"op": "probe", "k": id, "s": t.slot, "n": t.slots, "hit": t.some, "r": d, "gen": t.generation}).to_string());
+                } else {
+                    p.lines.push(json!({"op": "insert", "k": id, "s": t.slot, "n": t.slots, "d": d, "gen": t.generation}).to_string());
+                }
+            }
+        }
+    }
+    totals[3] = p.ids.len() as u64;
+}
+
 pub fn main(rest: &[String]) -> i32 {
     let f = std::io::BufReader::new(std::fs::File::open(&rest[0]).unwrap());
     let mut out = std::io::BufWriter::new(std::fs::File::create(&rest[1]).unwrap());
+    let mut tout = rest.get(2).map(|p| std::io::BufWriter::new(std::fs::File::create(p).unwrap()));
+    let max_slots: usize = rest.get(3).and_then(|x| x.parse().ok()).unwrap_or(150);
+    let mut ttotals = [0u64; 5];
+    let mut counted_inserts = 0u64;
+    let mut pool = Pool { ids: std::collections::HashMap::new(), pool: Vec::new(), lines: Vec::new() };
     let mut sid = 0u64;
     let mut total = 0u64;
     let mut skipped = 0u64;
@@ -50,6 +127,8 @@ pub fn main(rest: &[String]) -> i32 {
         let mut options = EngineOptions::default();
         options.hash_size = hash;
         let mut ps = PersistentState::new(hash);
+        let mut sess: Vec<SessEv> = vec![SessEv::New(ps.tt.verif_slots())];
+        let _ = verif::take_table();
         for s in job["searches"].as_array().unwrap() {
             let base = proj::game_from_fields(&s["pos"]);
             let mut game = base.clone();
@@ -71,6 +150,7 @@ pub fn main(rest: &[String]) -> i32 {
             }
             if s["newgame"].as_bool().unwrap_or(false) {
                 ps.reset();
+                sess.push(SessEv::Reset);
             }
             let mut depth = s["depth"].as_u64().map(|d| d as u8);
             let mut stopk = s["stopk"].as_i64().unwrap_or(0);
@@ -94,18 +174,25 @@ pub fn main(rest: &[String]) -> i32 {
                 depth = Some(d);
                 stopk = (polls + stopk + 1).max(1);
                 ps = PersistentState::new(hash);
+                sess.push(SessEv::New(ps.tt.verif_slots()));
             }
             let record = s["record"].as_bool().unwrap_or(false);
             let mut rep = Collect { infos: Vec::new() };
             verif::set_stop_at_poll(stopk);
             let _ = verif::take_nodes();
             verif::record_nodes(record);
+            let _ = verif::take_table();
+            let _ = verif::take_table_inserts();
+            verif::record_table(tout.is_some());
             let res = std::panic::catch_unwind(std::panic::AssertUnwindSafe(|| {
                 let (mut ts, _control) = TimeStrategy::new(&game, &TimeControl::Infinite, &options);
                 let restr = SearchRestrictions { depth };
                 search::search(&game, &mut ps, &mut ts, &restr, &options, &mut rep)
             }));
             verif::record_nodes(false);
+            verif::record_table(false);
+            counted_inserts += verif::take_table_inserts();
+            sess.extend(verif::take_table().into_iter().map(SessEv::Ev));
             let polls = verif::polls();
             verif::set_stop_at_poll(0);
             let events = verif::take_nodes();
@@ -140,8 +227,25 @@ pub fn main(rest: &[String]) -> i32 {
             writeln!(out, "{}", json!({"e": "end", "out": o, "best": best, "msg": msg, "polls": polls,
                                        "infos": rep.infos, "n": events.len()})).unwrap();
         }
+        if tout.is_some() {
+            write_session(&mut pool, &sess, max_slots, &mut ttotals);
+        }
     }
     out.flush().unwrap();
-    println!("{}", json!({"searches": sid, "events": total, "over_budget": skipped}));
+    let recorded_inserts = ttotals[4];
+    if let Some(t) = tout.as_mut() {
+        let slots: Vec<usize> = pool.pool.iter().map(|x| x.0).collect();
+        let ns: Vec<usize> = pool.pool.iter().map(|x| x.1).collect();
+        // `complete`: the insert events recorded at the search's call sites are all the inserts the tables saw
+        writeln!(t, "{}", json!({"op": "pool", "slot": slots, "n": ns, "complete": counted_inserts == recorded_inserts,
+                                 "counted": counted_inserts, "recorded": recorded_inserts})).unwrap();
+        for l in &pool.lines {
+            writeln!(t, "{l}").unwrap();
+        }
+        t.flush().unwrap();
+    }
+    println!("{}", json!({"searches": sid, "events": total, "over_budget": skipped,
+                          "table": {"operations": ttotals[0], "written": ttotals[1], "collision_slots": ttotals[2], "keys": ttotals[3],
+                                    "inserts_recorded": ttotals[4], "inserts_counted": counted_inserts}}));
     0
 }
